@@ -2716,11 +2716,6 @@ def transform_compressible(items, constants, labels):
             return imm >= lo and imm <= hi
         return inner
 
-    def NotAuipcJump():
-        def inner(i, p, e):
-            return not getattr(i, 'is_auipc_jump', False)
-        return inner
-
     criteria = {
         # this has to be first since it collides with c.addi
         'c.addi16sp': [
@@ -2882,7 +2877,6 @@ def transform_compressible(items, constants, labels):
         ],
         'c.jr': [
             NameEquals('jalr'),
-            NotAuipcJump(),
             RegEquals('rd', 0),
             RegNotEquals('rs1', 0),
             ImmEquals(0),
@@ -2911,7 +2905,6 @@ def transform_compressible(items, constants, labels):
         ],
         'c.jalr': [
             NameEquals('jalr'),
-            NotAuipcJump(),
             RegEquals('rd', 1),
             RegNotEquals('rs1', 0),
             ImmEquals(0),
